@@ -55,6 +55,7 @@ def gen_params(rng, stratum):
         "end_policy": "clean" if stratum == "A" else "free",
         "allow_shiftable": use_ref,
         "per_sample_bam": rng.random() < 0.3,
+        "split_bams": rng.choice([0, 0, 2, 3]),
         "vcf_compress": rng.random() < 0.2,
         "qual_mode": rng.choice(["const", "random"]),
         "het_prob": rng.choice([0.6, 0.8, 1.0]),
